@@ -2,6 +2,7 @@
 From Coq Require Import ZArith List Bool Permutation.
 From B2Z Require Import Base.Prims Model.Overlap Proofs.OverlapProofs Bridge.BridgeOverlap.
 From B2Z Require Gen.GenOverlap.
+From B2Z Require Import Gen.GenScan Bridge.BridgeScan.
 Import ListNotations.
 Open Scope Z_scope.
 
@@ -66,3 +67,22 @@ Example c13_instance :
   accept [ {| p_contig := 0; p_start := 50; p_end := 90 |}; {| p_contig := 0; p_start := 10; p_end := 49 |} ] = true /\
   accept [ {| p_contig := 0; p_start := 50; p_end := 90 |}; {| p_contig := 0; p_start := 10; p_end := 50 |} ] = false.
 Proof. vm_compute. split; reflexivity. Qed.
+
+(* ---- TRANSLATOR TIE (translator/scan2coq.py -> Gen/GenScan.v): tables and order read off the source on this run *)
+
+(* every fixed array VcfZarrSchema.generate creates is protected against a clobbering field: variant_X / call_X with X in
+   the reserved INFO / FORMAT names of check_field_clobbering -- variant_length being protected by array creation
+   (reserved_info_name_rejected).  A fixed array added without reserving its name, or a name dropped from the reserved
+   sets, makes this false. *)
+Theorem translated_fixed_arrays_protected : forallb protected gen_fixed_arrays = true.
+Proof. exact translated_fixed_arrays_protected_lemma. Qed.
+Print Assumptions translated_fixed_arrays_protected.
+
+(* scan_vcfs: duplicate paths are refused before any file is scanned; the scan results are sorted by path before the
+   first header is taken as the reference every other file is compared with (so the verdict does not depend on the
+   order the files were given or completed in); the partitions are sorted by (header contig index, start) afterwards *)
+Theorem translated_scan_order :
+  before SDuplicatePaths SScanAll && before SScanAll SSortResultsByPath && before SSortResultsByPath STakeFirstHeader
+  && before STakeFirstHeader SHeadersEqualFirst && before SHeadersEqualFirst SSortPartitions = true.
+Proof. exact translated_scan_order_lemma. Qed.
+Print Assumptions translated_scan_order.
